@@ -659,6 +659,22 @@ def wfile(cases):
         "Eval vm_compute in (find_indexes unmodelled cases).\n"
 
 
+def parse_nat_lists(out):
+    """All `= [..] : list nat` answers of a case file, in order (numbers may carry a %nat scope suffix)."""
+    import re
+    res = []
+    for m in re.finditer(r"=\s*(\[[^\]]*\]|nil)\s*:\s*list nat", out, re.S):
+        body = m.group(1)
+        body = "" if body == "nil" else body.strip()[1:-1].strip()
+        res.append([int(x.replace("%nat", "").strip()) for x in body.split(";") if x.strip()])
+    return res
+
+
+def parse_first(out):
+    l = parse_nat_lists(out)
+    return l[0] if l else None
+
+
 RELS = ["Replay.replay_report_events = recorded stream and exception", "Writer.aggregate(recorded stream) = rebuilt report",
         "StreamOk.sequential_ok(recorded stream) = python bracket check", "Replay.replayable = python hypothesis"]
 
@@ -752,19 +768,19 @@ def check(run):
         for k, (rc, out) in enumerate(outs):
             is_r = k < len(rshards)
             shard = rshards[k] if is_r else wshards[k - len(rshards)]
-            bad = lib.parse_nat_list(out) if rc == 0 else None
+            bad = parse_first(out) if rc == 0 else None
             if bad is None:
                 run.tie_broken("case file did not evaluate", detail=out[-1500:])
                 continue
             if not is_r:
-                lists = [m for m in __import__("re").findall(r"=\s*(\[[^\]]*\]|nil)\s*:\s*list nat", out)]
+                lists = parse_nat_lists(out)
                 if len(lists) > 1:
-                    unmodelled += 0 if lists[1] in ("nil", "[]") else len(lists[1].split(";"))
+                    unmodelled += len(lists[1])
             for idx in bad[:1]:
                 if is_r:
                     case = shard[idx]
                     rc2, out2 = run.coq_eval("detail", rfile_detail(case))
-                    which = lib.parse_nat_list(out2) if rc2 == 0 else None
+                    which = parse_first(out2) if rc2 == 0 else None
                     rels = [RELS[j] for j in (which or [])] or ["?"]
                     desc, obs = case[0], case[1]
                     small = desc
